@@ -14,7 +14,11 @@ def extra_cases(rng, quick):
     out = []
     base = {"class_prefix": "p", "class_prefix_sign": None, "rpx_ratio": 750, "import_sign": "IMPORT", "convert_host": True, "host_is": None}
     firsts = [":host{color:red}", ":host(.a){color:red}", ":host .b{color:red}", "@import 'x.wxss';", "/* c */", "@charset \"utf-8\";", "@media x{:host{a:b}}",
-              ".a{}", "@layer a;"]
+              ".a{}", "@layer a;",
+              # at-rules whose block is EMPTY (a nested rule list that ends at once), alone and after / around other rules (round 9, C18-9)
+              "@media screen{}", "@layer x{}", "@supports (a:b){}", "@container c (min-width:1px){}", "@scope (.s){}", "@starting-style{}",
+              ".q{x:y} @media print{}", "@media a{@supports (b:c){}}", "@media a{.r{s:t} @layer l{}}", "@font-face{}", "@page{}", "@keyframes k{}",
+              "@media screen{ }", "@layer x{/* only a comment */}"]
     paths = ["./a%20b.wxss", "lib/100%2fzoom.wxss", "%", "%2", "%zz", "a%25b", "%E4%B8%AD", "a b", "*/", "é中😀", "'q'", "a\\\\b*?", "%41%42"]
     for f in firsts:
         for conv in (True, False):
